@@ -1,6 +1,8 @@
 (* C20 driver.
    model img <fmt>        stdin: "<w> <h> <v0> <v1> ..."   -> hex of the file bytes, or "OOB <index>"
-   model trace            stdin: "T <pname|-> <pid> { | <printed thread name> ev ev ... }"   threads in file order
+   model trace            stdin: "T <pname|-> <pid> <id,id,...|-> { | <thread name|TID>#<thread id> ev ev ... }"
+                                 threads in the order they started; the id list is the order of the map entries in the file;
+                                 the recorder's map is built by the extracted reg_run (threads with equal ids share a list)
                                  ev: B:name:cat:ns  E:ns  M:name:cat:ns  C:name:value:ns   (cat "-" = null; ns = clock ticks; util text is "0")
                           -> "<text of the log>\t<chunk sizes a,b;c;...>\t<json_array verdict>"
    model json             stdin: a text per line -> "1" if the Coq recogniser accepts it as a JSON array, else "0" *)
@@ -45,13 +47,23 @@ let () =
        | _ -> print_endline "bad case")
     | "trace" ->
       (match toks line with
-       | "T" :: pname :: pid :: rest ->
-         let ths = List.map (fun (nm, evs) -> { t_name = str_of_string nm; t_events = record_all (List.map parse_ev evs) })
-             (split_threads [] None rest) in
+       | "T" :: pname :: pid :: order :: rest ->
+         let split_hash s = match String.rindex_opt s '#' with
+           | Some i -> (String.sub s 0 i, n (String.sub s (i + 1) (String.length s - i - 1)))
+           | None -> failwith ("thread without id " ^ s) in
+         let ops = List.concat_map (fun (nmid, evs) ->
+             let (nm, id) = split_hash nmid in
+             (RAttach id :: (if nm = "TID" then [] else [RName (id, str_of_string nm)]))
+             @ List.map (fun e -> RRec (id, parse_ev e)) evs) (split_threads [] None rest) in
+         let reg = reg_run ops in
+         let ids = if order = "-" then [] else List.map n (String.split_on_char ',' order) in
+         let entries = List.map (fun id -> match reg_find reg id with Some en -> en | None -> failwith "order names an unknown id") ids in
+         let ths = reg_threads (fun _ -> str_of_string "TID") entries in
          let text = saveLog (opt pname) (n pid) ths in
          let sizes = String.concat ";" (List.map (fun t ->
              if t.t_events = [] then "-" else String.concat "," (List.map (fun c -> string_of_int (List.length c)) t.t_events)) ths) in
-         print_endline (string_of_str text ^ "\t" ^ sizes ^ "\t" ^ (if json_array text then "1" else "0"))
+         print_endline (string_of_str text ^ "\t" ^ sizes ^ "\t" ^ (if json_array text then "1" else "0")
+                        ^ "\t" ^ string_of_int (List.length reg))
        | _ -> print_endline "bad case")
     | "json" -> print_endline (if json_array (str_of_string line) then "1" else "0")
     | _ -> failwith "mode"
